@@ -227,6 +227,12 @@ def reference_decode(enc, body):
         d = br.Decompressor()
         try:
             out = d.process(body)
+            # without an output limit the binding still hands out one block per call: drain
+            while not d.is_finished():
+                more = d.process(b"")
+                if not more:
+                    break
+                out += more
         except br.error:
             return ("invalid", None)
         if not d.is_finished():
@@ -251,12 +257,53 @@ def reference_decode(enc, body):
 
 
 # ------------------------------------------------------------------------------------ recording the real decompressors
+class Runaway(BaseException):
+    """a per-scenario guard of the harness tripped (BaseException: must not be swallowed by the `except Exception`
+    clauses of the code under test).  kind -> violation signature, see oracle()."""
+
+    def __init__(self, kind, detail):
+        super().__init__(kind, detail)
+        self.kind, self.detail = kind, detail
+
+
 class Recorder:
     current = None
 
     def __init__(self):
         self.calls = []       # (input, max_length, out|None, avail, eof)
         self.peak = 0
+        # per-scenario guards (set by run_case from the wire / reference sizes; None = off)
+        self.max_calls = None        # decompressor calls
+        self.max_out_total = None    # decoded bytes produced, all calls together
+        self.max_pending = None      # bytes parked inside the decompressor (_pending_unused_data / unused_data / tail)
+        self.out_total = 0
+
+    def after_call(self, dec, out):
+        self.out_total += len(out)
+        if self.max_calls is not None and len(self.calls) > self.max_calls:
+            raise Runaway("decoder-call-budget", f"{len(self.calls)} decompressor calls for this body (budget {self.max_calls})")
+        if self.max_out_total is not None and self.out_total > self.max_out_total:
+            raise Runaway("decoded-exceeds-reference",
+                          f"decoder produced {self.out_total} bytes so far, more than the reference decoding allows ({self.max_out_total})")
+        if self.max_pending is not None:
+            pend = pending_inside(dec)
+            if pend > self.max_pending:
+                raise Runaway("pending-input-grows",
+                              f"{pend} input bytes parked inside the decompressor, the whole body on the wire is smaller "
+                              f"(cap {self.max_pending})")
+
+
+def pending_inside(dec):
+    """input bytes a compression_utils decompressor is holding back (pending members, unconsumed tail, unused data)"""
+    n = len(getattr(dec, "_pending_unused_data", None) or b"")
+    inner = getattr(dec, "_decompressor", None)
+    if inner is not None:
+        for attr in ("unconsumed_tail", "unused_data"):
+            try:
+                n += len(getattr(inner, attr, b"") or b"")
+            except Exception:
+                pass
+    return n
 
 
 _PATCHED = []
@@ -281,6 +328,7 @@ def install_patches():
                 raise
             if rec is not None:
                 rec.calls.append((data, max_length, bytes(out), bool(self.data_available), bool(getattr(self, "eof", False))))
+                rec.after_call(self, out)
             return out
         cls.decompress_sync = decompress_sync
         _PATCHED.append((cls, "decompress_sync", orig))
@@ -555,15 +603,26 @@ def make_body(rng, enc, limit, quick):
     data = make_payload(rng, limit, shape, quick)
     if enc == "identity":
         return data, shape
-    multi = enc in ("gzip", "deflate", "zstd") and rng.random() < 0.25
+    multi = enc in ("gzip", "deflate", "rawdeflate", "zstd") and rng.random() < 0.3
     if multi:
         parts = []
-        k = rng.randint(2, 4)
-        cuts = sorted(rng.randrange(len(data) + 1) for _ in range(k - 1))
-        prev = 0
-        for cpos in cuts + [len(data)]:
-            parts.append(data[prev:cpos]); prev = cpos
-        if rng.random() < 0.5:
+        if rng.random() < 0.5 and limit <= 16384:
+            # member sizes equal to / dividing / multiples of / one off the read-buffer limit: the output budget of one
+            # decode step (max(limit, low_water)) runs out exactly at (or right next to) a member boundary
+            sizes = [limit, max(1, limit // 2), 2 * limit, limit + 1, max(1, limit - 1)]
+            pos = 0
+            src = data * (8 * limit // max(1, len(data)) + 2)
+            for _ in range(rng.randint(2, 4)):
+                n = rng.choice(sizes)
+                parts.append(src[pos:pos + n]); pos += n
+            shape += "+aligned"
+        else:
+            k = rng.randint(2, 4)
+            cuts = sorted(rng.randrange(len(data) + 1) for _ in range(k - 1))
+            prev = 0
+            for cpos in cuts + [len(data)]:
+                parts.append(data[prev:cpos]); prev = cpos
+        if rng.random() < 0.4:
             parts.insert(rng.randrange(len(parts) + 1), b"")      # an empty member
         body = b"".join(compress(enc, p, rng.choice([1, 6, 9])) for p in parts)
         shape += "+multi"
@@ -672,13 +731,25 @@ def gen_case(rng, quick, encs):
         else:
             ops.append(["R", rng.choice(sizes)] if rng.random() < 0.7 else ["A"])
     close_early = side == "client" and rng.random() < 0.12
-    return {"side": side, "enc": enc, "limit": limit, "framing": framing, "body": hx(body), "wire_segs": [hx(s) for s in segs],
+    ce_variant = "lower"
+    if enc != "identity" and "+" not in shape.replace("+multi", "").replace("+aligned", "") and rng.random() < 0.06:
+        ce_variant = rng.choice(["upper", "title"])
+    return {"ce_variant": ce_variant, "side": side, "enc": enc, "limit": limit, "framing": framing, "body": hx(body), "wire_segs": [hx(s) for s in segs],
             "merge_head": merge_head, "ops": ops, "shape": shape, "cms": cms, "post": use_post, "mode": mode,
             "close_after_wire": (side == "client" and (framing == "E" or rng.random() < 0.35)), "close_early": close_early}
 
 
-def head_bytes(case, wire_len):
+def coding_value(case):
+    """the Content-Encoding value as sent: content codings are case-insensitive (RFC 9110 8.4.1)"""
     he = header_encoding(case["enc"])
+    v = case.get("ce_variant", "lower")
+    if he is None:
+        return None
+    return {"lower": he, "upper": he.upper(), "title": he.title()}[v]
+
+
+def head_bytes(case, wire_len):
+    he = coding_value(case)
     lines = []
     if case["side"] == "client":
         lines.append(b"HTTP/1.1 200 OK")
@@ -709,10 +780,37 @@ def run_case(case, max_ops=40000):
         loop.close()
 
 
+def scenario_budgets(case, wire, body):
+    """explicit per-scenario guards: how much the real pipeline may do for this body before the harness stops it"""
+    ref = reference_decode(case["enc"], body)
+    if ref[0] == "ok":
+        ref_len = len(ref[1])
+    elif ref[0] == "incomplete":
+        ref_len = len(ref[1]) + 65536
+    else:
+        ref_len = None
+    if ref_len is None or "+badchunk" in case.get("shape", ""):
+        # corrupt stream (or damaged chunk framing: `body` is then not what the decoder gets): a streaming decoder
+        # legitimately delivers what precedes the corruption and a forged zstd/brotli header can announce any size,
+        # so only an absolute cap applies (it still stops a runaway)
+        ref_len = max(1100 * len(wire) + 65536, 32 << 20)
+    slack = 2 * brotli_call_max(max(case["limit"], 65536)) if case["enc"] == "br" else 0
+    return {"ref_len": ref_len,
+            "max_out_total": 2 * ref_len + slack + 4096,
+            "max_pending": 2 * len(wire) + 4096,
+            "max_calls": min(4 * ref_len + 8 * len(wire) + 2000, 2_000_000),
+            "max_delivered": ref_len + slack + 64,
+            "max_ops": min(4 * ref_len + 8 * len(wire) + 4 * len(case["ops"]) + 400, 400_000)}
+
+
 def _run_case(case, loop, rec, max_ops):
     segs = [unhx(s) for s in case["wire_segs"]]
     wire = b"".join(segs)
     body = unhx(case["body"])
+    bud = scenario_budgets(case, wire, body)
+    rec.max_calls, rec.max_out_total, rec.max_pending = bud["max_calls"], bud["max_out_total"], bud["max_pending"]
+    max_ops = min(max_ops, bud["max_ops"])
+    runaway = [None]
     p = Pipeline(loop, case)
     head = head_bytes(case, len(wire))
     queue = list(segs)
@@ -760,6 +858,17 @@ def _run_case(case, loop, rec, max_ops):
     req_result = None
 
     def do(op):
+        nonlocal final
+        if final is not None:
+            return False
+        try:
+            return do_(op)
+        except Runaway as r:
+            runaway[0] = (r.kind, r.detail)
+            final = ("runaway", r.kind)
+            return False
+
+    def do_(op):
         nonlocal closed, final, req_result
         k = op[0]
         if k == "D":
@@ -805,6 +914,9 @@ def _run_case(case, loop, rec, max_ops):
                 delivered[:] = unhx(out[2:])
             elif out.startswith("e="):
                 req_result = ("err", out[2:]); final = ("err", out[2:])
+        if final is None and len(delivered) > bud["max_delivered"]:
+            runaway[0] = ("delivered-exceeds-reference", f"{len(delivered)} bytes delivered, the reference decoding has {bud['ref_len']}")
+            final = ("runaway", "delivered-exceeds-reference")
         return True
 
     for op in case["ops"]:
@@ -824,13 +936,12 @@ def _run_case(case, loop, rec, max_ops):
             do(["D"]); progressed = True
         elif not queue and case.get("close_after_wire") and not closed:
             do(["X"]); progressed = True
-        before = len(trace)
         do(reader)
-        out = trace[-1].split("/")[0]
-        if out != "blk":
-            progressed = True
         if final is not None:
             break
+        out = trace[-1].split("/")[0] if trace else "blk"
+        if out != "blk":
+            progressed = True
         if not progressed:
             idle += 1
             if idle >= 2:
@@ -839,8 +950,9 @@ def _run_case(case, loop, rec, max_ops):
         else:
             idle = 0
     if final is None:
-        final = ("stuck", "op-budget")
-    he = header_encoding(case["enc"])
+        final = ("runaway", "op-budget")
+        runaway[0] = ("op-budget", f"{len(trace)} operations without reaching end-of-body or an error (budget {max_ops})")
+    he = coding_value(case)      # DeflateBuffer compares the value as sent: `== "deflate"` decides sniff and the eof check
     fr = {"L": f"L{len(wire)}", "C": "C", "E": "E"}[case["framing"]]
     lax = 1 if (case["side"] == "client") else 0
     ks = []
@@ -864,7 +976,7 @@ def _run_case(case, loop, rec, max_ops):
             "tr_paused": p.tr.paused, "size": pstate._size, "n_ops": len(trace),
             "exc_pending": None if pstate._exception is None else err_name(pstate._exception),
             "stale_class": stale_birth[0] or "no-surviving-pause-flag-seen", "more_at_close": more_at_close[0],
-            "parked_with_exc": p.parked_with_exc}
+            "parked_with_exc": p.parked_with_exc, "runaway": runaway[0]}
     return {"line": line, "impl": impl, "info": info}
 
 
@@ -880,6 +992,27 @@ def oracle(ctx, case, info):
     complete_on_wire = info["wire_left"] == 0 or final[0] != "stuck"
     limit = case["limit"]
     c = {k: case[k] for k in case}
+    # --- content codings are case-insensitive: `Content-Encoding: GZIP` must decode like `gzip`
+    if case.get("ce_variant", "lower") != "lower":
+        fam = header_encoding(enc)
+        good = ref[0] == "ok" and ((final == ("eof",) and delivered == ref[1]) or
+                                   (final[0] == "stuck" and case["framing"] == "E" and not info["closed"]))
+        if ref[0] == "ok" and not good and case["mode"] != "req":
+            ctx.violation("C09/valid-body-rejected/content-coding-not-lowercase", c,
+                          f"Content-Encoding: {coding_value(case)} ({fam} body, valid): {final!r} after {len(delivered)} of "
+                          f"{len(ref[1])} bytes -- the value is matched case-insensitively but the decoder is chosen by exact "
+                          f"comparison, so the zlib decoder is used")
+        return
+    # --- per-scenario guards of the harness (the pipeline was stopped instead of being allowed to run away)
+    if info.get("runaway"):
+        kind, detail = info["runaway"]
+        sig = {"pending-input-grows": "C09/memory/pending-input-grows",
+               "decoded-exceeds-reference": "C09/not-transparent/decoded-output-exceeds-reference",
+               "delivered-exceeds-reference": "C09/not-transparent/delivered-exceeds-reference",
+               "decoder-call-budget": "C09/no-progress/decoder-call-budget-exhausted",
+               "op-budget": "C09/no-progress/op-budget-exhausted"}.get(kind, "C09/no-progress/" + kind)
+        ctx.violation(sig, c, detail)
+        return
     # --- transparency / corrupt-is-error
     if wire_ok and case["mode"] != "req":
         if ref[0] == "ok":
@@ -893,6 +1026,9 @@ def oracle(ctx, case, info):
             if final == ("eof",):
                 fam = header_encoding(enc)
                 kind = f"incomplete-{fam}-stream-clean-eof" if ref[0] == "incomplete" else f"invalid-{fam}-stream-clean-eof"
+                if fam == "zstd" and ref[0] == "invalid" and zstd_library_accepts_bytewise(body):
+                    # not aiohttp's doing: the zstd library itself accepts this corrupt stream when it is fed in pieces
+                    kind = "invalid-zstd-stream-accepted-by-libzstd-when-segmented"
                 ctx.violation(f"C09/corrupt-delivered/{kind}", c,
                               f"reference decoder reports the {enc} stream as {ref[0]}, the consumer saw a clean end-of-body "
                               f"after {len(delivered)} bytes")
@@ -967,6 +1103,27 @@ def oracle(ctx, case, info):
             ctx.violation("C09/client-max-size/accepted-over-limit", c, f"{len(ref[1])}-byte body accepted, client_max_size {cms}")
 
 
+def zstd_library_accepts_bytewise(body):
+    """libzstd (through the python binding) misses some corruptions when the frame is fed in pieces: e.g. a frame whose
+    header announces 1 content byte and whose last block is empty is rejected when fed whole and accepted (eof, no
+    output) when fed in two or more pieces.  True if the frames of `body`, fed byte by byte to fresh decompressors of
+    the LIBRARY ITSELF (no aiohttp code involved), all reach eof."""
+    z = _zstd()
+    data = body
+    try:
+        while data:
+            d = z.ZstdDecompressor()
+            i = 0
+            while i < len(data) and not d.eof:
+                d.decompress(data[i:i + 1]); i += 1
+            if not d.eof:
+                return False
+            data = d.unused_data + data[i:]
+        return True
+    except z.ZstdError:
+        return False
+
+
 def _law_bounded(ctx, case, enc, n, m):
     if enc == "br" and n <= brotli_call_max(m):
         ctx.violation("C09/memory/brotli-overshoots-max-length", case, f"br: output {n} > max_length {m} (whole doubling blocks, <= 2*max_length + 32 KiB)")
@@ -990,16 +1147,35 @@ def check_codec_laws(ctx, enc, body, rng):
         d = cu.ZLibDecompressor(encoding=he, suppress_deflate_header=bool(raw))
     segs = segment(rng, body, rng.choice(["whole", "cuts", "cuts"]))
     out = bytearray()
-    case = {"law": True, "enc": enc, "body": hx(body)}
+    case = {"law": True, "enc": enc, "body": hx(body), "cuts": [len(x) for x in segs]}
+    bud = scenario_budgets({"enc": enc, "limit": 65536, "ops": []}, body, body)
+
+    def guards():
+        """explicit guards: never let a decompressor that duplicates or hoards input run away under the harness"""
+        if len(out) > bud["max_out_total"]:
+            ctx.violation("C09/not-transparent/decoded-output-exceeds-reference", case,
+                          f"{enc}: streaming decoder produced {len(out)} bytes, the reference decoding has {bud['ref_len']}")
+            return True
+        pend = pending_inside(d)
+        if pend > bud["max_pending"]:
+            ctx.violation("C09/memory/pending-input-grows", case,
+                          f"{enc}: {pend} input bytes parked inside the decompressor for a {len(body)}-byte body")
+            return True
+        return False
+    ms = []
+    case["ms"] = ms
     try:
-        for s in segs:
+        for k, s in enumerate(segs):
             m = rng.choice([1, 3, 64, 1000, 65536, 0])
             if m and m * 4000 < len(body) * 50:
                 m = 65536
+            ms.append(m)
             o = d.decompress_sync(s, max_length=m)
             out += o
             if m and len(o) > m:
                 _law_bounded(ctx, case, enc, len(o), m)
+            if guards():
+                return
             guard = 0
             while d.data_available:
                 if not o and guard:
@@ -1010,8 +1186,12 @@ def check_codec_laws(ctx, enc, body, rng):
                 guard += 1
                 if m and len(o) > m:
                     _law_bounded(ctx, case, enc, len(o), m)
-                if guard > 10_000_000:
-                    break
+                if guards():
+                    return
+                if guard > bud["max_calls"]:
+                    ctx.violation("C09/no-progress/decoder-call-budget-exhausted", case,
+                                  f"{enc}: {guard} decompress_sync(b'') calls with data_available still set")
+                    return
     except Exception:
         ctx.hit("law:decoder-raised")
         if ref[0] == "ok":
@@ -1063,9 +1243,55 @@ def finding_cases():
         if enc in available_encodings():
             t = compress(enc, data)[:-20]
             out.append(("truncated-" + enc, dict(trunc, enc=enc, body=hx(t), wire_segs=[hx(t)])))
+    out.append(("coding-case", dict(trunc, body=hx(gzip.compress(data, mtime=0)), wire_segs=[hx(gzip.compress(data, mtime=0))],
+                                    shape="random", ce_variant="upper")))
+    if "zstd" in available_encodings():
+        # frame 1 announces 1 content byte but its last (raw) block is empty; frame 2 is valid ("5")
+        zb = bytes.fromhex("28b52ffd2001010000" + "28b52ffd200109000035")
+        out.append(("zstd-libzstd-segmented", dict(trunc, enc="zstd", limit=1024, body=hx(zb), wire_segs=[hx(zb[:5]), hx(zb[5:])],
+                                                   shape="random+multi+flip")))
     if "br" in available_encodings():
         b = compress("br", b"a" * 640)
         out.append(("br-overshoot", dict(trunc, enc="br", limit=16, body=hx(b), wire_segs=[hx(b)], shape="bomb")))
+    return out
+
+
+def probe_cases():
+    """deterministic scenarios aimed at one mechanism each; all pass on the unchanged tree (run before the random cases, so
+    they are covered even when a cold build eats the time budget)"""
+    out = []
+    base = {"merge_head": False, "ops": [], "cms": 0, "post": False, "mode": "mixed", "close_after_wire": False,
+            "close_early": False, "ce_variant": "lower"}
+    text = (b"The quick brown fox jumps over the lazy dog. " * 8)[:300]
+    # (a) first-byte sniff of a `deflate` body: raw and zlib-wrapped x chunked x every single cut of the first 40 wire bytes
+    #     (the cut right after the first chunk-size line makes the chunked parser call payload.feed_data(b"") first)
+    for enc in ("rawdeflate", "deflate"):
+        body = compress(enc, text)
+        half = len(body) // 2
+        wire = b"%x\r\n" % half + body[:half] + b"\r\n%x\r\n" % (len(body) - half) + body[half:] + b"\r\n0\r\n\r\n"
+        for side in ("client", "server"):
+            for cut in range(1, 41):
+                out.append(dict(base, side=side, enc=enc, limit=1024, framing="C", body=hx(body),
+                                wire_segs=[hx(wire[:cut]), hx(wire[cut:])], shape="text+probe-sniff"))
+            out.append(dict(base, side=side, enc=enc, limit=1024, framing="C", body=hx(body), merge_head=True,
+                            wire_segs=[hx(wire[:3 + len(b"%x" % half) - 1]), hx(wire[3 + len(b"%x" % half) - 1:])],
+                            shape="text+probe-sniff"))
+    # (b) concatenated members whose decoded sizes make the output budget of one decode step (max(limit, low_water)) run out
+    #     exactly at a member boundary: 1024/512/2048 with limit 1024 (whole and 97-byte segments), 1025 x 3 with 97-byte segments
+    encs = [e for e in ("deflate", "rawdeflate", "gzip", "zstd") if e in available_encodings()]
+    src = bytes((i * 7 + i // 251) % 256 for i in range(8192))
+    for enc in encs:
+        for sizes in ((1024, 512, 2048), (1025, 1025, 1025), (512, 512, 1024, 1)):
+            parts, pos = [], 0
+            for n in sizes:
+                parts.append(src[pos:pos + n]); pos += n
+            body = b"".join(compress(enc, part) for part in parts)
+            for seglen in (None, 97):
+                segs = [body] if seglen is None else [body[i:i + seglen] for i in range(0, len(body), seglen)]
+                for framing in ("L", "E"):
+                    out.append(dict(base, side="client", enc=enc, limit=1024, framing=framing, body=hx(body),
+                                    wire_segs=[hx(x) for x in segs], shape="random+multi+aligned+probe",
+                                    close_after_wire=(framing == "E")))
     return out
 
 
@@ -1150,7 +1376,7 @@ def run_and_compare(ctx, cases, label):
         if info["closed"]:
             ctx.hit("op:peer-close")
         oracle(ctx, case, info)
-        if outs is not None:
+        if outs is not None and not info.get("runaway"):
             ctx.compare({"case": case}, r["impl"], outs[i], label)
 
 
@@ -1161,6 +1387,7 @@ def check(ctx):
     try:
         # fixed scenarios first (known findings keep their own signatures)
         run_and_compare(ctx, [c for _, c in finding_cases()], "pipeline vs Aio.C09.run (fixed scenarios)")
+        run_and_compare(ctx, probe_cases(), "pipeline vs Aio.C09.run (deterministic probes)")
         remove_patches()
         vloop_scenarios(ctx)
         n = 1500 if ctx.quick else 16000
